@@ -10,6 +10,12 @@ type C14Case struct {
 	Allowed   []string `json:"allowed"`   // nil => default
 	RawLine   string   `json:"rawLine"`   // the "plugin" only prints this handshake line and stays alive (non-Go / old plugins)
 	Conflict  string   `json:"conflict"`  // "" | cmd+reattach | secure+reattach | none-set
+	// version sets (cmd / runner launches): both sides register several versions, each with the wire protocol
+	// VerProto names for it; Proto then is the protocol of the highest common version ("" if none)
+	VerHost   []int             `json:"verHost,omitempty"`
+	VerPlugin []int             `json:"verPlugin,omitempty"`
+	VerProto  map[string]string `json:"verProto,omitempty"`
+	VerBest   int               `json:"verBest,omitempty"`
 }
 
 type C14Obs struct {
